@@ -245,12 +245,6 @@ func checkProperty(prop, tier string, seed int, dump bool) int {
 		return 1
 	}
 
-	// self-check of the checker: canaries must fire (exit 2 = broken checker, no verdict)
-	if msg := runCanaries(spec, tier); msg != "" {
-		fmt.Printf("artcheck %s: CHECKER BROKEN – %s\n", prop, msg)
-		return 2
-	}
-
 	nviol, ndis := 0, 0
 	var knownHit []string
 	perRule := map[string]int{}
@@ -274,6 +268,15 @@ func checkProperty(prop, tier string, seed int, dump bool) int {
 		replay := writeReplay(prop, o.Rule, nviol, o, tier)
 		lines = append(lines, fmt.Sprintf("VIOLATION property=%s replay=%s", prop, replay))
 		lines = append(lines, fmt.Sprintf("  %s %s %s at %s {%s}: %s", o.Rule, o.Status, o.Key, o.Pos, o.Arch, o.Detail))
+	}
+	// self-check of the checker, only when the tree itself raised nothing (a tree that already
+	// violates the rules is reported as such; canaries guard against vacuous passes)
+	selfTestLog = nil
+	if nviol == 0 {
+		if msg := runCanaries(spec, tier); msg != "" {
+			fmt.Printf("artcheck %s: CHECKER BROKEN – %s\n", prop, msg)
+			return 2
+		}
 	}
 	var rs []string
 	for _, r := range sortedKeys(perRule) {
